@@ -336,6 +336,7 @@ pub fn check_main(scn: &dyn Scenario, prop_arg: &str, opts: &CheckOptions) -> i3
     let mut sim_ns = 0u128;
     let mut violations: Vec<(u64, u64, IssueRec)> = vec![];
     let mut known_hits: BTreeMap<String, (u64, String)> = BTreeMap::new();
+    let mut known_examples: BTreeMap<String, Value> = BTreeMap::new();
     let mut other_props: BTreeMap<String, u64> = BTreeMap::new();
     for (i, v) in &records {
         merge_counters(&mut counters, &v["num"]);
@@ -375,8 +376,10 @@ pub fn check_main(scn: &dyn Scenario, prop_arg: &str, opts: &CheckOptions) -> i3
             }
             match matches_known(&known, &rec) {
                 Some(k) => {
-                    let e = known_hits.entry(format!("{}|{}|{}", k.property, k.rule, k.sig)).or_insert((0, k.what.clone()));
+                    let key = format!("{}|{}|{}", k.property, k.rule, k.sig);
+                    let e = known_hits.entry(key.clone()).or_insert((0, k.what.clone()));
                     e.0 += 1;
+                    known_examples.entry(key).or_insert_with(|| json!({"case_index": i, "case_seed": v["seed"], "rule": rec.rule, "sig": rec.sig, "message": rec.msg.chars().take(300).collect::<String>()}));
                 }
                 None => violations.push((*i, v["seed"].as_u64().unwrap_or(0), rec)),
             }
@@ -458,7 +461,7 @@ pub fn check_main(scn: &dyn Scenario, prop_arg: &str, opts: &CheckOptions) -> i3
             "violations_by_rule": by_rule,
             "violation_examples": examples,
             "violations_by_rule_and_signature": by_rule_sig,
-            "known_findings_hit": known_hits.iter().map(|(k, v)| json!({"finding": k, "occurrences": v.0})).collect::<Vec<_>>(),
+            "known_findings_hit": known_hits.iter().map(|(k, v)| json!({"finding": k, "occurrences": v.0, "example": known_examples.get(k)})).collect::<Vec<_>>(),
             "issues_of_other_properties_seen": other_props,
             "components": { "real": meta.components_real, "stub": meta.components_stub },
             "replay_files": replay_files,
